@@ -417,3 +417,67 @@ Theorem C07_usb_example :
   accept_spec ex_cut = None /\ accept_spec ex_hub = None.
 Proof. exact example_camera. Qed.
 Print Assumptions C07_usb_example.
+
+(* ================================================================================================================
+   TIE TO THE SOURCE CODE: verify_ack and send_cmd of cameleon/src/u3v/control_handle.rs translated on every run by
+   tools/translate_control.py into gen/ControlSrc.v (operations: model/CtlOps.v; proofs: proofs/P_C06s.v;
+   [same_as_model]: props/C06.v, C06_same_as_model_def).
+   ================================================================================================================ *)
+From Cam Require Import RustInt CurOps ReadChunks RegTables CtlOps ControlSrc P_C10s P_C06s.
+
+(* verify_ack: first the status, which must be GenCp(Success), then the request id, which must be the handle's next id;
+   either failure is Io; nothing is touched *)
+Theorem C07_verify_ack_from_source : forall (a : ack) (s : xst),
+  src_verify_ack a s =
+  (if negb (a_status a =? 0) then Err CE_IO
+   else if negb (a_request_id a =? Control.c_next (fst (fst s))) then Err CE_IO else Ok tt, s).
+Proof. exact verify_ack_src. Qed.
+Print Assumptions C07_verify_ack_from_source.
+
+(* send_cmd<T, U> - FULL equality, not a partial result: for every command whose cached lengths are the true ones (every
+   command the constructors of cmd.rs build: C09) and every view U (ReadMem, WriteMem, Pending: C07_views_of_source_ok),
+   the translated code - command length against maximum_cmd_length, buffer grown to max(cmd_len, maximum_ack_len) when
+   shorter, serialize into the buffer, send of buffer[..cmd_len], the receive loop (recv into the whole buffer, parse of
+   buffer[0..recv_len], verify_ack, a Pending acknowledge parsed, slept and counted down, the kind check, the request id
+   advanced exactly once), the final parse + scd_as - is the model's send_cmd followed by the view: same traffic, same
+   result or error class, same handle, no panic where the model has none *)
+Theorem C07_send_cmd_from_source : forall U (V : ack_view U) cm, view_ok V -> cmd_ok cm ->
+  same_as_model (src_send_cmd V cm) (do a <- Control.send_cmd cm; Control.lift (view_parse V a) CE_IO) (fun _ => True).
+Proof. exact send_cmd_explicit. Qed.
+Print Assumptions C07_send_cmd_from_source.
+
+Theorem C07_views_of_source_ok : view_ok view_ReadMem /\ view_ok view_WriteMem /\ view_ok view_Pending.
+Proof. exact views_ok. Qed.
+Print Assumptions C07_views_of_source_ok.
+
+(* the retry loop alone, for every fuel above the retry count: the translated `while retry_count > 0` leaves with
+   (retry_count, Some recv_len) exactly when the model's recv_loop returns the acknowledge parsed from the first recv_len
+   bytes of the buffer, with (_, None) exactly when the retry count is used up (the model's Io), and with the model's
+   error / panic otherwise; the fuel the translator passes, S (Z.to_nat retry_count), is never used up *)
+Theorem C07_retry_loop_from_source : forall fuel retry ek (s : xst), ginv s -> (Z.to_nat retry < fuel)%nat ->
+  loop_spec (src_send_cmd_loop1 fuel ek retry None s) (Control.recv_loop fuel retry ek (fst s)).
+Proof. exact recv_loop_src. Qed.
+Print Assumptions C07_retry_loop_from_source.
+
+(* the property on the translated code alone: against ANY device that sends bytes (raw garbage, wrong ids, truncated or
+   oversized acknowledges, libusb errors, any number of pending acknowledges) the TRANSLATED read and write never panic,
+   and a read that succeeds has filled the whole buffer (composition with C07_read_total_inv / C07_every_operation_sound) *)
+Theorem C07_total_of_source : forall (c : Control.ctl) (w : Control.world) g a,
+  hinv c -> wbytes w -> zlen (g_buf g) = Control.c_buflen c -> 0 <= a < 2 ^ 64 ->
+  (forall buf, zlen buf < 2 ^ 64 ->
+     fst (src_read a buf ((c, w), g)) <> Panic /\
+     (forall d, fst (src_read a buf ((c, w), g)) = Ok d -> zlen d = zlen buf)) /\
+  (forall data, zlen data < 2 ^ 64 -> bytes_ok data -> fst (src_write a data ((c, w), g)) <> Panic).
+Proof. exact total_of_source. Qed.
+Print Assumptions C07_total_of_source.
+
+(* non-vacuity: an acknowledge with the wrong request id gives Io through the translated code, as in the model *)
+Theorem C07_source_examples :
+  let w := {| Control.w_segs := [(0, repeat 7 16)];
+              Control.w_plans := [{| tp_send_err := None; tp_replies := [RConform [ESet16 10 9]] |}];
+              Control.w_replies := []; Control.w_cur_ack := []; Control.w_cur_rid := 0; Control.w_log := [];
+              Control.w_open_err := None; Control.w_writes := [] |} in
+  fst (src_read 0 (repeat 0 4) ((ex_ctl, w), g0)) = Err CE_IO /\
+  fst (src_read 0 (repeat 0 4) ((ex_ctl, w), g0)) = fst (Control.ctl_read 0 4 (ex_ctl, w)).
+Proof. exact c07s_example_wrong_id. Qed.
+Print Assumptions C07_source_examples.
